@@ -31,4 +31,19 @@ TEXT = {
   "level_text": "Exploration: control-flow programs (with and without dashes) padded at 1-3 insertion points with literal text of sizes straddling 4096 bytes up to 100 KB (thorough 300 KB) or with up to 400 comments (token thresholds 32/1000), compared with the unpadded rendering in which unique sentinels mark the insertion points; every tag-kind template x single-dash variant padded before/after to total lengths 4094..4099 and 8192 enumerated exhaustively.",
   "level_note": "Padding has non-blank ends and contains no opening delimiter. Buffer/pool size classes are exercised through template and output sizes only (no hook into the pools).",
  },
+ "C10": {
+  "technique": "property-based testing (rapid chain generator) + exhaustive grid over {omit,text,empty,parent()} per level; oracle = reference interpreter implementing block substitution along the extends chain",
+  "level_text": "Exploration: extends chains of 1-5 templates over up to 4 blocks placed at top level, in loops, conditionals and other blocks, with every level independently omitting, overriding, blanking or extending (parent() before/after/twice/in an if) each block, static and dynamic parent names, compared with a reference interpreter; all assignments of four forms to the child levels of chains of length 2-4 are enumerated exhaustively (x3 variants of a loop-nested block).",
+  "level_note": "Children contain only blocks, text and comments at top level (sets outside blocks are not relied upon, as the model has no rule for them).",
+ },
+ "C11": {
+  "technique": "property-based testing (rapid) + exhaustive option/placement grid; oracle = reference interpreter with probes of the includer's state after each include (non-interference)",
+  "level_text": "Exploration: includer plus chains of up to 3 included templates with all combinations of with/only/ignore missing/sandboxed, static and computed names, five placements; included templates read and write the includer's names; the includer probes values, definedness, its macro and loop state afterwards. All 16 option combinations x 4 placements x {existing, missing, failing} are enumerated exhaustively.",
+  "level_note": "Only the hash-literal form of `with`; whether an included template can call the includer's macros or see its blocks is unspecified and never relied upon.",
+ },
+ "C12": {
+  "technique": "property-based testing (rapid) + exhaustive arity/default grid; oracle = reference interpreter + metamorphic equality across the five call forms (local, _self, import, from-import, alias)",
+  "level_text": "Exploration: random macro libraries (0-5 parameters, any subset with defaults, bodies that test/print/default parameters, assign probed names, call sibling macros) and call sites with fewer/equal/more arguments in loops, blocks and conditionals; each case is rendered through all five ways of reaching a macro and every output must equal the reference interpreter's. The grid 0..4 parameters x default subsets x 0..6 arguments is enumerated exhaustively.",
+  "level_note": "Macro bodies read only parameters and names they assign (README says macros have their own scope; the code lets outer variables through, so that is not relied upon either way). Print-position calls only.",
+ },
 }
